@@ -262,6 +262,7 @@ func c09(c *core.Ctx) {
 	var mul *ssa.BinOp
 	var unitPhi *ssa.Phi
 	var unitLookup *ssa.Lookup
+	var unitCall *ssa.Call
 	var unitTable map[int64]int64
 	// the parser family: the function that reads the header and the package functions it calls
 	// (a helper that parses the text is followed, depth <= 2)
@@ -304,6 +305,13 @@ func c09(c *core.Ctx) {
 						mul, unitPhi = b, phi
 						parser = f
 					}
+					// the unit computed by a step function of the package from the suffix byte (a switch returning constants)
+					if uc, ok := side.(*ssa.Call); ok {
+						if h := uc.Call.StaticCallee(); h != nil && h.Blocks != nil && core.PkgIs(h, "httpgrpc") && len(h.Params) == 1 && core.TypeStr(h.Signature.Results().At(0).Type()) == "time.Duration" {
+							mul, unitCall = b, uc
+							parser = f
+						}
+					}
 					// the unit looked up in a package-level table keyed by the suffix byte
 					if lk, ok := side.(*ssa.Lookup); ok {
 						if tbl := globalConstMap(p, lk.X); tbl != nil {
@@ -323,6 +331,9 @@ func c09(c *core.Ctx) {
 	if unitLookup != nil {
 		unitVal, unitPos = unitLookup, unitLookup.Pos()
 	}
+	if unitCall != nil {
+		unitVal, unitPos = unitCall, unitCall.Pos()
+	}
 	if c.Rule("R2", "the server's unit table is exactly the wire spec's {H,M,S,m,u,n} and maps the client's unit letter to the client's divisor", 7) {
 		switch {
 		case parser == nil:
@@ -339,6 +350,49 @@ func c09(c *core.Ctx) {
 					if k >= 0 && k <= 255 {
 						table[byte(k)] = v
 					}
+				}
+			}
+			if unitCall != nil {
+				// one table row per constant return of the unit function, keyed by the letter its parameter was found equal to
+				h := unitCall.Call.StaticCallee()
+				type row struct {
+					v  ssa.Value
+					at ssa.Instruction
+				}
+				var rows []row
+				for _, r := range core.Returns(h) {
+					if phi, isPhi := r.Results[0].(*ssa.Phi); isPhi {
+						for i, e := range phi.Edges {
+							pred := phi.Block().Preds[i]
+							rows = append(rows, row{e, pred.Instrs[len(pred.Instrs)-1]})
+						}
+						continue
+					}
+					rows = append(rows, row{r.Results[0], r})
+				}
+				for _, rw := range rows {
+					d, isC := core.ConstInt(rw.v)
+					if !isC {
+						c.Undecided(name+":unit-table", unitPos, "the unit function returns something that is not a constant")
+						continue
+					}
+					if d == 0 {
+						zeroDefault = true
+						continue
+					}
+					var letter int64 = -1
+					for _, ef := range core.DominatingFacts(rw.at) {
+						if ef.Fact.Op == token.EQL && ef.Fact.X == ssa.Value(h.Params[0]) {
+							if k, ok := core.ConstInt(ef.Fact.Y); ok {
+								letter = k
+							}
+						}
+					}
+					if letter < 0 || letter > 255 {
+						c.Undecided(name+":unit-table", unitPos, "cannot find the suffix letter selecting unit %d", d)
+						continue
+					}
+					table[byte(letter)] = d
 				}
 			}
 			var edges []ssa.Value
